@@ -11,6 +11,7 @@ import CompmechVerif.Gen.Conn.BFycte
 import CompmechVerif.Gen.Conn.SB
 import CompmechVerif.Spec.Interface
 import CompmechVerif.Spec.InterfacePSD
+import CompmechVerif.Model.PenaltyConstantsLemmas
 import CompmechVerif.Core.OpSpecTactics
 import Mathlib.Tactic.FinCases
 import Mathlib.Data.Fintype.Basic
@@ -216,6 +217,51 @@ example {ι : Type} (s : Finset ι) (pan : ι → Pan) (ro : ι → Fin 3) (ix i
         (ix A) (ix B) (iy A) (iy B) :=
   conn_psd_sb unitConn monoJ monoE (by norm_num [unitConn]) (by norm_num [unitConn]) (by norm_num [unitConn])
     (by norm_num [unitConn]) mono mono (-1) 1 (-1) 1 monoJ_surf s pan ro ix iy c
+
+/-! ### the penalty constants `calc_kt_kr` (hand model `Model/PenaltyConstants.lean`, driver-tied to `penalty_constants.py`) -/
+open Compmech.Penalty
+
+/-- `calc_kt_kr` is SYMMETRIC in the two panels for the edge connections: joining `p1` to `p2` along `x = const` (or `y = const`) gives the
+same `(kt, kr)` as joining `p2` to `p1` — for all laminates (no positivity needed). -/
+theorem kt_kr_symmetric_xcte (L1 L2 : Lam K) (m1 m2 : K) : ktKr .xcte L1 L2 m1 = ktKr .xcte L2 L1 m2 := by
+  simp only [ktKr, series_comm L1.A11 L2.A11, series_comm L1.D11 L2.D11]
+
+theorem kt_kr_symmetric_ycte (L1 L2 : Lam K) (m1 m2 : K) : ktKr .ycte L1 L2 m1 = ktKr .ycte L2 L1 m2 := by
+  simp only [ktKr, series_comm L1.A22 L2.A22, series_comm L1.D22 L2.D22]
+
+/-- the face-to-face constant is symmetric exactly as far as the footprints agree: it divides by `min(p1.a, p1.b)` of the FIRST panel only -/
+theorem kt_kr_symmetric_bot_top (L1 L2 : Lam K) (m : K) : ktKr .botTop L1 L2 m = ktKr .botTop L2 L1 m := by
+  simp only [ktKr, series_comm L1.A11 L2.A11]
+
+/-- a 90-degree connection read from the other panel is the other 90-degree kind -/
+theorem kt_kr_corner_swap (L1 L2 : Lam K) (m1 m2 : K) : ktKr .xcteYcte L1 L2 m1 = ktKr .ycteXcte L2 L1 m2 := by
+  simp only [ktKr, series_comm L1.A11 L2.A22, series_comm L1.D11 L2.D22]
+
+/-- LINEAR in the moduli: scaling every stiffness of both laminates by `e ≠ 0` (thicknesses kept) scales `kt` and `kr` by `e`, all kinds -/
+theorem kt_kr_linear_in_moduli (c : CType) (L1 L2 : Lam K) (m e : K) (he : e ≠ 0) :
+    ktKr c (L1.scale e) (L2.scale e) m = ((e * (ktKr c L1 L2 m).1), (ktKr c L1 L2 m).2.map (e * ·)) := by
+  cases c <;> simp only [ktKr, Lam.scale, series_scale _ _ _ _ _ he, Option.map_some, Option.map_none, mul_div_assoc]
+
+/-- for physical laminates (positive stiffnesses and thicknesses) the constants are positive, so the penalty energy is a genuine penalty
+(`conn_psd_*` need `kt, kr ≥ 0`) -/
+theorem kt_kr_positive {F : Type} [Field F] [LinearOrder F] [IsStrictOrderedRing F] (L1 L2 : Lam F) (m : F)
+    (h1 : 0 < L1.A11 ∧ 0 < L1.A22 ∧ 0 < L1.D11 ∧ 0 < L1.D22 ∧ 0 < L1.t)
+    (h2 : 0 < L2.A11 ∧ 0 < L2.A22 ∧ 0 < L2.D11 ∧ 0 < L2.D22 ∧ 0 < L2.t) (hm : 0 < m) (c : CType) :
+    0 < (ktKr c L1 L2 m).1 ∧ ∀ kr ∈ (ktKr c L1 L2 m).2, 0 < kr := by
+  obtain ⟨a1, b1, c1, d1, t1⟩ := h1
+  obtain ⟨a2, b2, c2, d2, t2⟩ := h2
+  cases c <;> simp only [ktKr, Option.mem_def, Option.some.injEq, forall_eq', reduceCtorEq, false_implies, implies_true, and_true]
+  · exact ⟨series_pos _ _ _ _ a1 a2 t1 t2, series_pos _ _ _ _ c1 c2 t1 t2⟩
+  · exact ⟨series_pos _ _ _ _ b1 b2 t1 t2, series_pos _ _ _ _ d1 d2 t1 t2⟩
+  · exact div_pos (series_pos _ _ _ _ a1 a2 t1 t2) hm
+  · exact ⟨series_pos _ _ _ _ a1 b2 t1 t2, series_pos _ _ _ _ c1 d2 t1 t2⟩
+  · exact ⟨series_pos _ _ _ _ b1 a2 t1 t2, series_pos _ _ _ _ d1 c2 t1 t2⟩
+
+/-- non-vacuity: two different concrete laminates -/
+example : ktKr .xcte (⟨3, 2, 5, 4, 1⟩ : Lam ℚ) ⟨7, 1, 2, 9, 2⟩ 1 = ktKr .xcte ⟨7, 1, 2, 9, 2⟩ ⟨3, 2, 5, 4, 1⟩ 1 ∧
+    ktKr .xcte (⟨3, 2, 5, 4, 1⟩ : Lam ℚ) ⟨7, 1, 2, 9, 2⟩ 1 = (14 / 5, some (40 / 21)) := by
+  refine ⟨kt_kr_symmetric_xcte _ _ _ _, ?_⟩
+  norm_num [ktKr, series]
 
 end C12
 end Compmech.Panel
